@@ -27,6 +27,12 @@ import (
 //go:linkname simSelectState runtime.simSelectState
 var simSelectState uint64
 
+// simMapState is pushed by the overlaid runtime/rand.go: when non-zero, map seeds and map
+// iteration offsets are drawn from this state instead of the runtime's random source.
+//
+//go:linkname simMapState runtime.simMapState
+var simMapState uint64
+
 // Violation is a property violation found by an oracle (or a panic inside repository code).
 type Violation struct {
 	Class string `json:"class"`
@@ -125,10 +131,11 @@ type Sim struct {
 
 	Values map[string]any // scratch space for shims (simnet world, simfs, …)
 
-	tasks int
-	cells int
-	abort bool
-	rb    uint64
+	tasks    int
+	traceCut bool
+	cells    int
+	abort    bool
+	rb       uint64
 }
 
 var cur *Sim
@@ -267,9 +274,19 @@ func (s *Sim) Logf(format string, a ...any) {
 }
 
 func (s *Sim) logLine(l string) {
-	if len(s.trace) < 20000 {
-		s.trace = append(s.trace, fmt.Sprintf("%6d t=%-12v %s", s.step, time.Since(s.start), l))
+	line := fmt.Sprintf("%6d t=%-12v %s", s.step, time.Since(s.start), l)
+	// keep the first 300 and the last 3000 lines
+	const head, tail = 300, 3000
+	if len(s.trace) < head+tail {
+		s.trace = append(s.trace, line)
+		return
 	}
+	if !s.traceCut {
+		s.traceCut = true
+		s.trace[head] = "…"
+	}
+	copy(s.trace[head+1:], s.trace[head+2:])
+	s.trace[len(s.trace)-1] = line
 }
 
 func (s *Sim) hashU(v uint64) {
@@ -681,6 +698,7 @@ func Execute(t *testing.T, cfg Config, pref string, body func(s *Sim)) (res Resu
 				sel = 1
 			}
 			simSelectState = sel
+			simMapState = sel ^ 0x5851f42d4c957f2d
 			yieldCountdown = math.MaxInt64
 			s.Go("main", func() {
 				defer func() { s.mainDone = true }()
@@ -706,10 +724,12 @@ func Execute(t *testing.T, cfg Config, pref string, body func(s *Sim)) (res Resu
 			}
 			cur = nil
 			simSelectState = 0
+			simMapState = 0
 		})
 	}()
 	cur = nil
 	simSelectState = 0
+	simMapState = 0
 	yieldCountdown = math.MaxInt64
 	res.Seed = cfg.Seed
 	res.Steps = s.step
